@@ -393,6 +393,15 @@ def e2e_grid(kind="float"):
                 recs.append({"k": k, "c": r})
                 k += 1
             t.append_records(recs)
+        # an append passing an explicit schema argument whose field ids are numbered differently: a correct validator refuses
+        # it; if it is accepted its bounds must still be found under the ids the pruner looks up
+        try:
+            renum = Schema(schema_id=1, fields=[{"id": 2, "name": "k", "type": "long", "required": True}, {"id": 1, "name": "c", "type": ice, "required": False}])
+            recs = [{"k": k, "c": files[0][0]}, {"k": k + 1, "c": files[0][-1]}]
+            t.append_records(recs, schema=renum)
+            files = files + [[files[0][0], files[0][-1]]]
+        except Exception:  # noqa
+            pass
         real_prune = flt.prune_files_by_bounds
         for op in ops:
             for v in lits:
@@ -437,7 +446,7 @@ SCALAR_OPS = ["==", "!=", "<", "<=", ">", ">=", "is_null", "is_not_null"]
 
 def obligations(tier):
     obs = []
-    T = 150 if tier == "quick" else 900
+    T = 240 if tier == "quick" else 900
     for op in SCALAR_OPS:
         for kind in ("int", "float", "str", "bool"):
             if kind == "bool" and op in ("<", "<=", ">", ">="):
